@@ -265,7 +265,7 @@ def _execution_fault(e):
     if not src:
         return None
     last_src = max(i for i, f in enumerate(frames) if f in src)
-    if any(('/verif/checks/' in f[0]) for f in frames[last_src + 1:]):
+    if any(('/verif/checks/' in f[0]) for f in frames[last_src + 1:]) and not getattr(e, 'alloc_fault', False):
         return None
     f = src[-1]
     return '%s line %d of the transliterated function (%s)' % (f[0], f[1], f[2]), '%s: %s' % (type(e).__name__, str(e)[:160])
